@@ -1,6 +1,7 @@
 package main
 
 import (
+	"net/http/httptest"
 	"bytes"
 	"context"
 	"encoding/hex"
@@ -80,6 +81,8 @@ func c01Sinks() []c01Sink {
 		{"text", "verbatim", plain(func(s string) templ.Component { return tmpl.TextSink(s) })},
 		{"text-inline", "verbatim", plain(func(s string) templ.Component { return tmpl.TextSinkInline(s) })},
 		{"text-err", "verbatim", plain(func(s string) templ.Component { return tmpl.TextSinkErr(s) })},
+		{"text-concat", "verbatim", plain(func(s string) templ.Component { return tmpl.TextConcatSink(s) })},
+		{"attr-concat", "verbatim", plain(func(s string) templ.Component { return tmpl.AttrConcatSink(s) })},
 		{"attr", "verbatim", plain(func(s string) templ.Component { return tmpl.AttrSink(s) })},
 		{"attr-last", "verbatim", plain(func(s string) templ.Component { return tmpl.AttrSinkLast(s) })},
 		{"cond-attr-then", "verbatim", plain(func(s string) templ.Component { return tmpl.CondAttrSink(true, s) })},
@@ -307,6 +310,25 @@ func runC01(e *emitter, tier string, seed uint64) {
 	amp := c01Sink{"text-after-amp", "verbatim", func(s string) (templ.Component, context.Context) { return tmpl.TextAfterAmpSink(s), context.Background() }}
 	for _, s := range []string{"lt;", "gt;", "amp;", "#34;", "#39;", "x", "<b>", "&", ";", " lt;", "\"'", "l"} {
 		doSink(amp, s)
+	}
+	// a fragment converted for html/template (templ.ToGoHTML) stays what it was while other components are rendered
+	// through the same buffer pool before it is used
+	if e.mine("gohtml") {
+		bgc := context.Background()
+		for i, s := range []string{"<b>&\"'", "Tom & Jerry", strings.Repeat("x<", 300), "a"} {
+			want := render(tmpl.AttrSink(s), bgc) + render(tmpl.TextSink(s), bgc)
+			fragA, errA := templ.ToGoHTML(bgc, tmpl.AttrSink(s))
+			fragB, errB := templ.ToGoHTML(bgc, tmpl.TextSink(s))
+			// other renders in between: another conversion and a buffered handler response
+			_, _ = templ.ToGoHTML(bgc, tmpl.TextSink("OTHER-"+strings.Repeat("o", 40*i)))
+			rec := httptest.NewRecorder()
+			templ.Handler(tmpl.TextSink("secret\"><h1>")).ServeHTTP(rec, httptest.NewRequest("GET", "/", nil))
+			got := string(fragA) + string(fragB)
+			if errA != nil || errB != nil {
+				got = "ERR"
+			}
+			e.emit(fmt.Sprintf("gohtml %d", i), "gohtml", hx(s), hx(want), hx(got))
+		}
 	}
 	// whole templates of the markup fragment (composition theorem)
 	c01Compose(e, tier, seed)
